@@ -84,11 +84,11 @@ func report(kind string, c any, e *oerr, again func() *oerr) {
 func main() {
 	run = evid.New("C15", "exploration")
 	run.Rule("four finite spaces, each enumerated completely (products of the menus below, every element once, so every case is distinct by construction). " +
-		"(1) GlobalDecoder single track: rates {1,7,8000,44100,48000,90000,1e9} x initial RTP timestamps {0,1,2^31-1,2^31,2^32-2,2^32-1} x {all packets PTS==DTS | packets reached by a negative step are not PTS==DTS} x EVERY sequence of exactly D steps over {+1,-1,+1500,-1500,+90000,-90000,+(2^31-1),-(2^31-1),+2^30,+(2^31-2)} with D=4 quick / 6 thorough; the decoder output is checked after every step, so every shorter sequence is covered as a prefix; plus 1 or 2 leading packets that are not PTS==DTS (must be refused) in front of every sequence of 3 steps. " +
+		"(1) GlobalDecoder single track: rates {1,7,8000,44100,48000,90000,1e9} x initial RTP timestamps {0,1,2^31-1,2^31,2^32-2,2^32-1} x {all packets PTS==DTS | packets reached by a negative step are not PTS==DTS} x EVERY sequence of exactly D steps over {+1,-1,+1500,-1500,+90000,-90000,+(2^31-1),-(2^31-1),+2^30,+(2^31-2)} with D=4 quick / 6 thorough; the decoder output is checked after every step, so every shorter sequence is covered as a prefix; plus 1 or 2 leading packets that are not PTS==DTS (must be refused) in front of every sequence of 3 steps. (1b) many joiners: for the all-PTS==DTS variant EVERY sequence of EVERY length 0..D is run on its own decoder and followed by 35 more tracks joining that decoder: at each offset {0,1ns,1ms,1s,1h} after the lead's last packet (ascending) one new track per rate; each placement is judged like in (2). " +
 		"(2) late track: lead rate x lead initial timestamp x every lead step sequence of length 0..L (L=3 quick, 4 thorough; 20 ms of virtual time between lead packets) x joining rate (same menu) x virtual offset after the lead's last packet {0,1ns,1ms,1s,1h} x joining initial timestamp {5,2^32-2}; after joining the second track walks through all ten menu steps and the lead takes one more step. " +
 		"(3) NTP: seconds {1970-01-01T00:00:00, 2000-01-01T00:00:00, 2035-12-31T23:59:59, 2036-02-07T06:28:15 (last second of NTP era 0)} x nanoseconds: thorough ALL 10^9, quick every 1009th plus the first and last 20000. " +
 		"(4) sender->receiver: rates {8000,44100,90000} x every event string over {P=packet written, R=sender report generated and processed} that starts with P and has <=3 P and <=2 R x virtual time between consecutive events from {0,1ns,1ms,1s,1h} (thorough adds 333333ns and 14h, which wraps the 32-bit RTP time of the report at 90 kHz) x first RTP timestamp {0,2^32-1000,2^31-1} x NTP base {1970-01-01, 2000-01-01, such that the last event falls in the last two seconds of NTP era 0} x writer NTP skew per packet {0,250ms} x {all packets PTS==DTS | only the first} x {receiver also processes the report the sender emits by itself after the first packet | not}; after every event PacketNTP is asked for the report's RTP time +{0,+-1,+-3000,+-(2^31-1)}. " +
-		"non-trivial: (1) the 32-bit timestamp wraps at least once or a step is negative; (2) every case (two tracks); (4) at least one report processed. NTP instants are counted in evaluations and in ntp_instants but not in distinct_nontrivial (set capacity 8M, counted conservatively).")
+		"non-trivial: (1) the 32-bit timestamp wraps at least once or a step is negative; (1b),(2) every case (several tracks); (4) at least one report processed. NTP instants are counted in evaluations and in ntp_instants but not in distinct_nontrivial (set capacity 8M, counted conservatively).")
 	run.Assume("GlobalDecoder returns ticks of the track's clock (int64), so part 1 is compared exactly, no rounding allowance")
 	run.Assume("the statement does not fix PTS(0); only differences are judged (the observed first PTS is recorded as an outcome)")
 	run.Assume("late track: the statement only says 'placed on the leading track's timeline'; weaker reading taken: |first PTS - (lead_pts*r2/r1 + elapsed*r2/1e9)| < 2 ticks of the joining track's clock (each of the two terms may be truncated to a tick); lead_pts is the reference model's value for the lead's last packet, elapsed is measured from that packet. Cases whose exact placement does not fit in int64 are skipped and counted (late_unrepresentable)")
@@ -109,7 +109,7 @@ func main() {
 		case "pts":
 			var c ptsCase
 			must(json.Unmarshal(r.Case, &c))
-			pinned(1, 1, func(_ int, clk *vclock) { e, _, _ = runPTS(&c, clk) })
+			pinned(1, 1, func(_ int, clk *vclock) { e, _, _ = runPTS(&c, clk, nil) })
 			finishReplay("pts", c, e)
 		case "late":
 			var c lateCase
